@@ -234,4 +234,7 @@ def Graph.wfVars (g : Graph) (sv dv n : Nat) : Bool :=
                          (List.range n).all (fun j => !e.preWrites (dv, j)))
   | _ => false
 
+/-- `wfVars` and: the source variable node has exactly `n` entries (one per original variable) -/
+def Graph.wfVarsExact (g : Graph) (sv dv n : Nat) : Bool := g.wfVars sv dv n && g.size sv == n
+
 end MpVerif.C04
